@@ -219,6 +219,10 @@ class SpecMixin:
     def spec_as_row(self, node, st, ctx):
         return SV(ROW, Val.ref(box(self.ev(node.args[0], st, ctx))))
 
+    def spec_as_comp(self, node, st, ctx):
+        """a row value read as a reference to a composition dictionary (str -> int)"""
+        return SV(COMP, Val.ref(box(self.ev(node.args[0], st, ctx))))
+
     def spec_as_list(self, node, st, ctx):
         ty = SPEC_TYPES[node.args[1].id]
         return SV(List(ty), Val.ref(box(self.ev(node.args[0], st, ctx))))
@@ -522,7 +526,8 @@ class SpecMixin:
             st.set_arr(name, z3.Const(fresh_name(name), old.sort()))
             return
         if m.startswith("each(") and m.endswith(")"):
-            lsv = self.ev_spec_value(m[5:-1], self.callee_state(pre, params))
+            cs0 = self.callee_state(pre, params)
+            lsv = self.ev_spec_value(m[5:-1], cs0, old=cs0)
             ety = lsv.ty.args[0]
             n = pre.list_len(lsv.ty, lsv.t)
             e = pre.list_elems(lsv.ty, lsv.t)
@@ -535,7 +540,8 @@ class SpecMixin:
                 st.assume(z3.ForAll([r], z3.Implies(z3.Not(mem[r]), new[r] == old[r]), patterns=[new[r]]))
                 self.canon_assume(name, new, st)
             return
-        sv = self.ev_spec_value(m, self.callee_state(pre, params))
+        cs0 = self.callee_state(pre, params)
+        sv = self.ev_spec_value(m, cs0, old=cs0)  # a modifies item is read in the callee's entry state: old(e) is e there
         if not sv.ty.is_ref:
             raise StaleContract("modifies item %s is not a reference" % m)
         for name, sort in self.arrays_of(sv.ty, pre):
